@@ -91,6 +91,52 @@ def gen_cases(tier):
         for combo in itertools.combinations(range(len(ALPHA)), n):
             for v in (0, 1):
                 yield {"txns": list(combo), "views": v}
+    # the documents `tally up` prints: with --quiet, stdout is the JSON / Markdown document and nothing else, whatever state the sources are in
+    for fmt in ("json", "markdown"):
+        for verbosity in ("", "-v", "-vv"):
+            for state in ("all-ok", "one-missing", "one-unparseable"):
+                yield {"cli": fmt, "verbosity": verbosity, "state": state}
+
+
+def check_cli(case):
+    from mc.core import proc
+    base = os.path.join(R.scratch(), "c12cli")
+    shutil.rmtree(base, ignore_errors=True)
+    os.makedirs(os.path.join(base, "config"))
+    os.makedirs(os.path.join(base, "data"))
+    with open(os.path.join(base, "data", "a.csv"), "w") as f:
+        f.write("Date,Description,Amount\n01/05/2025,NETFLIX.COM,15.50\n01/06/2025,COFFEE </script> BAR,4.25\n")
+    if case["state"] == "one-unparseable":
+        with open(os.path.join(base, "data", "b.csv"), "wb") as f:
+            f.write(b"Date,Description,Amount\n01/07/2025,BAD \xff\xfe BYTES,1.00\n")
+    elif case["state"] == "all-ok":
+        with open(os.path.join(base, "data", "b.csv"), "w") as f:
+            f.write("Date,Description,Amount\n01/07/2025,BOOK STORE,20.00\n")
+    with open(os.path.join(base, "config", "merchants.rules"), "w") as f:
+        f.write('[Netflix]\nmatch: contains("NETFLIX")\ncategory: Subs\nsubcategory: Streaming\n')
+    with open(os.path.join(base, "config", "settings.yaml"), "w") as f:
+        f.write('year: 2025\nmerchants_file: config/merchants.rules\ndata_sources:\n'
+                '  - name: A\n    file: data/a.csv\n    format: "{date:%m/%d/%Y},{description},{amount}"\n'
+                '  - name: B\n    file: data/b.csv\n    format: "{date:%m/%d/%Y},{description},{amount}"\n')
+    argv = ["up", "-q", "--format", case["cli"]] + ([case["verbosity"]] if case["verbosity"] else [])
+    r = proc.run_cli(argv, cwd=base)
+    viol = []
+    out = r["stdout"]
+    if r["exit"] != 0:
+        viol.append({"kind": "renderer-raises", "detail": {"output": " ".join(argv), "exit": r["exit"], "stderr_tail": r["stderr"][-300:]}})
+    elif case["cli"] == "json":
+        try:
+            doc = json.loads(out)
+            if "NETFLIX.COM" not in json.dumps(doc) and "Netflix" not in json.dumps(doc):
+                viol.append({"kind": "merchants-differ", "detail": {"output": " ".join(argv), "problem": "the readable source's merchant is missing"}})
+        except Exception as e:  # noqa
+            viol.append({"kind": "quiet-output-is-not-the-document", "detail": {"output": " ".join(argv), "sources": case["state"], "problem": str(e)[:100], "stdout_head": out[:200]}})
+    else:
+        if not out.lstrip().startswith("#"):
+            viol.append({"kind": "quiet-output-is-not-the-document", "detail": {"output": " ".join(argv), "sources": case["state"], "stdout_head": out[:200]}})
+    shutil.rmtree(base, ignore_errors=True)
+    return {"evals": 1, "nontrivial": 1 if case["state"] != "all-ok" else 0, "outcomes": ["cli-" + case["cli"]], "violations": viol,
+            "sample_repr": {"command": " ".join(argv), "sources": case["state"]}}
 
 
 class _Scripts(html.parser.HTMLParser):
@@ -212,6 +258,8 @@ def figure_ok(text, value):
 
 
 def check_case(case):
+    if "cli" in case:
+        return check_cli(case)
     from tally.analyzer import (analyze_transactions, classify_by_sections, compute_section_totals, export_json, export_markdown, print_summary,
                                 print_sections_summary, write_summary_file_vue)
     from tally.section_engine import parse_sections
